@@ -42,7 +42,7 @@ class RKAdaptiveStepSolver(object):
         yshape = self.yshape  # the closures below must not capture self (reference cycle)
         self.y0 = y0.reshape(-1)
 
-        direction = ts[1] - ts[0]
+        direction = ts[-1] - ts[0]  # (the first interval may be empty: a time point may be repeated)
         if direction < 0:
             self.ts = -ts
             self.func = lambda t, y: -fcn(-t, y.reshape(yshape), *params).reshape(-1)
@@ -65,6 +65,12 @@ class RKAdaptiveStepSolver(object):
         ts = self.ts
         f0 = self.func(t0, self.y0)
         h0 = self.ts[1] - self.ts[0]  # ??? perform more intelligent guess
+        if h0 == 0:
+            # the first requested time repeats the initial one: a zero step size would never
+            # reach the later times, start from the first non-empty interval instead
+            dts = self.ts[1:] - self.ts[:-1]
+            dts = dts[dts != 0]
+            h0 = dts[0] * 1 if len(dts) > 0 else torch.ones_like(h0)
 
         # prepare the results
         nt = len(ts)
